@@ -258,6 +258,13 @@ class ChangeField(BaseModelFieldMutation):
         new_field_attrs = self.field_attrs.copy()
         new_related_model = new_field_attrs.pop('related_model', None)
 
+        if (new_related_model is None and
+            issubclass(self.field_type, (models.ForeignKey,
+                                         models.ManyToManyField))):
+            # The field is changing to another type of relation (such as
+            # ForeignKey to OneToOneField) pointing to the same model.
+            new_related_model = old_field_sig.related_model
+
         new_field = create_field(project_sig=project_sig,
                                  field_name=field_name,
                                  field_type=self.field_type,
